@@ -396,8 +396,11 @@ class Outcome:
         self.evaluations += 1
         if nontrivial:
             self.nontrivial.add(sig if isinstance(sig, (str, int, tuple)) else json.dumps(sig, sort_keys=True))
-        if sample is not None and len(self.samples) < 6:
-            self.samples.append(sample)
+        if sample is not None and len(self.samples) < 8:
+            n = self.evaluations
+            # spread the written-out samples over the run: 1st, 7th, 50th, 350th, ...
+            if n in (1, 7, 50, 350, 2500, 17000, 120000, 800000):
+                self.samples.append(sample)
 
     # --- findings
     def _match_known(self, key: str):
@@ -458,7 +461,7 @@ class Outcome:
             "evaluations": self.evaluations,
             "distinct_nontrivial": len(self.nontrivial),
             "rule": rule,
-            "samples": self.samples[:6] or ["(no case generated)"],
+            "samples": self.samples[:8] or ["(no case generated)"],
             "obligations": self.proof.obligations if self.proof else 0,
             "discharged": self.proof.discharged if self.proof else 0,
             "checker_cmd": checker_cmd,
